@@ -65,9 +65,16 @@ func harnessC04OnceHistory() {
 			if once.filter == 0 {
 				everEligible = true
 			}
-		case 2: // context already cancelled
+		case 2: // context already cancelled, or ended by its deadline
 			ctx, cancel := context.WithCancel(context.Background())
-			cancel()
+			if vBool() {
+				cancel()
+			} else {
+				var stop context.CancelFunc
+				ctx, stop = context.WithTimeout(ctx, 0)
+				defer stop()
+			}
+			defer cancel()
 			PublishContext(bus, ctx, evA{N: 5})
 			want = m.publish(0, 5, false)
 		case 3: // another type
